@@ -1073,6 +1073,40 @@ impl<'a> Run<'a> {
     }
 }
 
+/// Run a sequential prefix (setup of a concurrent case) and hand out allocator and model.
+pub fn run_setup(cfg: &Config, ops: &[Op]) -> Result<(Inst, Model), Violation> {
+    let or = Oracles::default();
+    let build_viol = |tag: &str, msg: String, panic| Violation {
+        tag: tag.into(),
+        step: 0,
+        msg,
+        panic,
+    };
+    let inst = match guarded(|| Inst::build(cfg)) {
+        Ok(Ok(i)) => i,
+        Ok(Err(e)) => return Err(build_viol("C06", format!("construction failed: {}", err_name(e)), None)),
+        Err(p) => return Err(build_viol("PANIC", format!("new panicked: {}", p.msg), Some(p))),
+    };
+    let mut run = Run {
+        cfg,
+        or: &or,
+        inst,
+        twin: None,
+        model: Model::new(cfg),
+        owner: HashMap::new(),
+        dirty_offline: false,
+        out: Outcome::default(),
+        step: 0,
+        verbose: false,
+        cross_since_drain: 0,
+    };
+    for (i, op) in ops.iter().enumerate() {
+        run.step = i + 1;
+        run.exec(op)?;
+    }
+    Ok((run.inst, run.model))
+}
+
 /// Run one sequential case.
 pub fn run_seq(case: &SeqCase, or: &Oracles, verbose: bool) -> Outcome {
     let cfg = &case.cfg;
